@@ -49,10 +49,20 @@ def run(ctx, chk):
                 return ("sym", p)
             return NotImplemented
 
+        def resolve_fn(self, path):
+            """free functions of the tool's own crate are evaluated in place"""
+            c = [x for x in dis.fns("rspirv_dis") if x["name"] == path.split("::")[-1] and x["name"] != "main"]
+            return c[0] if len(c) == 1 else None
+
         def call(self, p, args, e):
             n = p.split("::")[-1]
             if p.startswith("clap::") or p.startswith("::clap::"):
                 return ("clap", n)
+            if p.split("::")[-2:] in (["BufReader", "new"], ["BufReader", "with_capacity"]) and args and args[-1] == ("file",):
+                return ("file",)
+            if n in ("read_to_end",) and len(args) == 2 and args[0] == ("file",):
+                self.events.append(("read_to_end", args[1]))
+                return ("ok", ("sym", "N"))
             if p.endswith("fs::File::open") and len(args) == 1:
                 self.events.append(("open", args[0]))
                 return ("ok", ("file",))
